@@ -34,9 +34,10 @@ Q1 = consts(C0, [1], 2, 1, memo=["none", "good", "bad"])
 Q2 = consts(C0, [1], 1, 2)
 M1 = consts(C0, [1, 2], 2, 2, fx=2, pool=4)
 M2 = consts(C02, [1], 1, 1, pool=2)
-T1 = consts(C0, [1], 2, 2)
+T1 = consts(C0, [1], 2, 1)
 T2 = consts(C0, [1, 2], 1, 1, fx=2, coin=2, erc=2, esc=2, pool=8)
-T3 = consts(C02, [1], 1, 1, pool=2, dn=["fx", "tb", "t1"], memo=["none", "good", "bad"])
+T3 = consts(C02, [1], 1, 0, pool=2, dn=["fx", "t1"], memo=["none", "good"])
+T4 = consts(C02, [1], 0, 1, pool=2, dn=["fx", "tb", "t1"], memo=["none", "good", "bad"])
 
 MC = [
     dict(name="dev", tiers=["dev"], consts=DEV),
@@ -47,9 +48,11 @@ GEN = [
     cfg("dev", ["dev"], DEV, rej_sample=3),
     cfg("out", ["quick"], Q1, rej_sample=3),
     cfg("in", ["quick"], Q2, rej_sample=3),
-    cfg("oneT", ["thorough"], T1, shards=16),
+    cfg("outT", ["thorough"], T1, shards=16),
+    cfg("inT", ["thorough"], Q2, shards=16),
     cfg("amtT", ["thorough"], T2, shards=16),
-    cfg("twoT", ["thorough"], T3, shards=16),
+    cfg("twoOutT", ["thorough"], T3, shards=16),
+    cfg("twoInT", ["thorough"], T4, shards=16),
 ]
 
 ASSUMPTIONS = [
